@@ -1,8 +1,302 @@
-// Package c09: stub (property not built yet).
+// Package c09: paging (Continue tokens) and Around windows of search.Handler.Query on a real
+// index + corpus, against the Lean model Pk.SearchPage and against the property's own oracle
+// (the limit-free query result).
+//
+// Line protocol (one world per case; times are TRUE nanoseconds since the Unix epoch, decimal,
+// possibly beyond int64):
+//
+//	pn <key> <refhex> <dc|none> <tags> <d1,d2,…|->
+//	    uploads the planned permanode <key> (its ref must be <refhex>), then the claims
+//	    set dateCreated=<dc> (if any), add tag=a / tag=b (tags ∈ -,a,b,ab), add extra=x<i> …,
+//	    the i-th claim dated d_i (attribute claims before 2020-09-13).  Answer: "ok <anytime|none> <modtime|none>" as the corpus reports them.
+//	q <c|m> <all|a|b> <limit> <continuehex|->
+//	    Query{Permanode constraint, Sort: CreatedDesc|LastModifiedDesc, Limit, Continue}
+//	    Answer: "ok <i,j,…|-> <continuehex|->" (indices in pn order, "?" for an unknown ref) or "err".
+//	ar <c|m> <all|a|b> <limit> <pivothex> [<continuehex>]
+//	    the same with Around=<pivot> (and no continue token unless given).
 package c09
 
-import "verifharness/hk"
+import (
+	"context"
+	"fmt"
+	"math/big"
+	"strconv"
+	"strings"
+	"time"
 
-func NewExec() func(w []string) string { return func([]string) string { return "bad-op" } }
+	"perkeep.org/pkg/blob"
+	"perkeep.org/pkg/index"
+	"perkeep.org/pkg/index/indextest"
+	"perkeep.org/pkg/schema"
+	"perkeep.org/pkg/search"
 
-func Run(r *hk.Run) { r.Note("not built yet") }
+	"verifharness/hk"
+)
+
+var ctxbg = context.Background()
+
+// world is one real index + in-memory corpus + search handler.
+type world struct {
+	idx    *index.Index
+	corpus *index.Corpus
+	id     *indextest.IndexDeps
+	h      *search.Handler
+	refs   []blob.Ref
+	pos    map[blob.Ref]int
+}
+
+type fataler struct{}
+
+func (fataler) Fatalf(format string, args ...any) { panic(fmt.Sprintf(format, args...)) }
+
+func newWorld() *world {
+	index.SetVerboseCorpusLogging(false)
+	idx := index.NewMemoryIndex()
+	corpus, err := idx.KeepInMemory()
+	if err != nil {
+		panic(err)
+	}
+	id := indextest.NewIndexDeps(idx)
+	id.Fataler = fataler{}
+	owner := index.NewOwner(indextest.KeyID, indextest.PubKey.BlobRef())
+	h := search.NewHandler(idx, owner)
+	h.SetCorpus(corpus)
+	return &world{idx: idx, corpus: corpus, id: id, h: h, pos: map[blob.Ref]int{}}
+}
+
+var (
+	e9      = big.NewInt(1000000000)
+	minSec  = int64(-62167219200) // 0000-01-01T00:00:00Z
+	maxSec  = int64(253402300799) // 9999-12-31T23:59:59Z
+)
+
+// AttrClaimCutoff (2020-09-13T12:26:40Z): claims that set attributes must be dated before it.
+var AttrClaimCutoff = time.Unix(1600000000, 0)
+
+// parseNanos turns a decimal count of nanoseconds since the epoch into a time.Time (years 0..9999).
+func parseNanos(s string) (time.Time, bool) {
+	if s == "" || len(s) > 24 {
+		return time.Time{}, false
+	}
+	for i, c := range s {
+		if !(c >= '0' && c <= '9' || (i == 0 && c == '-' && len(s) > 1)) {
+			return time.Time{}, false
+		}
+	}
+	n, ok := new(big.Int).SetString(s, 10)
+	if !ok || n.String() != s { // canonical decimal only
+		return time.Time{}, false
+	}
+	sec, nsec := new(big.Int).DivMod(n, e9, new(big.Int)) // Euclidean: 0 <= nsec < 1e9
+	if !sec.IsInt64() || sec.Int64() < minSec || sec.Int64() > maxSec {
+		return time.Time{}, false
+	}
+	return time.Unix(sec.Int64(), nsec.Int64()).UTC(), true
+}
+
+// Nanos is the inverse of parseNanos.
+func Nanos(t time.Time) string {
+	n := new(big.Int).Mul(big.NewInt(t.Unix()), e9)
+	n.Add(n, big.NewInt(int64(t.Nanosecond())))
+	return n.String()
+}
+
+func showTime(t time.Time, ok bool) string {
+	if !ok {
+		return "none"
+	}
+	return Nanos(t)
+}
+
+func (w *world) claim(b *schema.Builder, d time.Time) {
+	b.SetClaimDate(d)
+	w.id.Upload(w.id.Sign(b))
+}
+
+func (w *world) addPN(words []string) string {
+	if len(words) != 6 {
+		return "bad-op"
+	}
+	key, refhex, dcs, tags, ds := words[1], words[2], words[3], words[4], words[5]
+	for _, c := range key {
+		if !(c >= 'a' && c <= 'z' || c >= '0' && c <= '9') {
+			return "bad-op"
+		}
+	}
+	refb, ok := hk.UnHex(refhex)
+	if !ok {
+		return "bad-op"
+	}
+	want, ok := blob.Parse(string(refb))
+	if !ok || len(want.Digest())%2 == 1 {
+		return "bad-op"
+	}
+	var dc time.Time
+	hasDC := dcs != "none"
+	if hasDC {
+		if dc, ok = parseNanos(dcs); !ok {
+			return "bad-op"
+		}
+	}
+	var tagl []string
+	switch tags {
+	case "-":
+	case "a", "b":
+		tagl = []string{tags}
+	case "ab":
+		tagl = []string{"a", "b"}
+	default:
+		return "bad-op"
+	}
+	var dates []time.Time
+	if ds != "-" {
+		for _, s := range strings.Split(ds, ",") {
+			d, ok := parseNanos(s)
+			if !ok || d.IsZero() || d.Unix() == 0 { // types.Time3339.IsAnyZero: not a claim date
+				return "bad-op"
+			}
+			dates = append(dates, d)
+		}
+	}
+	need := len(tagl)
+	if hasDC {
+		need++
+	}
+	if need > len(dates) {
+		return "bad-op"
+	}
+	for _, d := range dates[:need] {
+		// attribute claims dated after time.Now() are not in effect (corpus.go valuesAtSigner): the
+		// protocol keeps the claims that carry dateCreated / tag in the past of any run
+		if !d.Before(AttrClaimCutoff) {
+			return "bad-op"
+		}
+	}
+	if _, dup := w.pos[want]; dup {
+		return "bad-op"
+	}
+	tb := w.id.Sign(schema.NewPlannedPermanode(key))
+	if tb.BlobRef() != want {
+		return "refmismatch"
+	}
+	pn := w.id.Upload(tb)
+	w.pos[pn] = len(w.refs)
+	w.refs = append(w.refs, pn)
+	i := 0
+	if hasDC {
+		w.claim(schema.NewSetAttributeClaim(pn, "dateCreated", dc.Format(time.RFC3339Nano)), dates[i])
+		i++
+	}
+	for _, tg := range tagl {
+		w.claim(schema.NewAddAttributeClaim(pn, "tag", tg), dates[i])
+		i++
+	}
+	for ; i < len(dates); i++ {
+		w.claim(schema.NewAddAttributeClaim(pn, "extra", fmt.Sprintf("x%d", i)), dates[i])
+	}
+	w.idx.RLock()
+	defer w.idx.RUnlock()
+	return "ok " + showTime(w.corpus.PermanodeAnyTime(pn)) + " " + showTime(w.corpus.PermanodeModtime(pn))
+}
+
+// RefOfKey is the ref the planned permanode <key> gets (signing is deterministic).
+func (w *world) RefOfKey(key string) blob.Ref {
+	return w.id.Sign(schema.NewPlannedPermanode(key)).BlobRef()
+}
+
+func (w *world) query(words []string) string {
+	around := words[0] == "ar"
+	if (!around && len(words) != 5) || (around && len(words) != 5 && len(words) != 6) {
+		return "bad-op"
+	}
+	q := &search.SearchQuery{}
+	switch words[1] {
+	case "c":
+		q.Sort = search.CreatedDesc
+	case "m":
+		q.Sort = search.LastModifiedDesc
+	default:
+		return "bad-op"
+	}
+	pc := &search.PermanodeConstraint{}
+	switch words[2] {
+	case "all":
+	case "a", "b":
+		pc.Attr = "tag"
+		pc.Value = words[2]
+	default:
+		return "bad-op"
+	}
+	q.Constraint = &search.Constraint{Permanode: pc}
+	lim, err := strconv.ParseInt(words[3], 10, 32)
+	if err != nil || strconv.FormatInt(lim, 10) != words[3] {
+		return "bad-op"
+	}
+	q.Limit = int(lim)
+	ci := 4
+	if around {
+		pb, ok := hk.UnHex(words[4])
+		if !ok {
+			return "bad-op"
+		}
+		piv, ok := blob.Parse(string(pb))
+		if !ok {
+			return "bad-op"
+		}
+		q.Around = piv
+		ci = 5
+	}
+	if ci < len(words) {
+		cb, ok := hk.UnHex(words[ci])
+		if !ok {
+			return "bad-op"
+		}
+		q.Continue = string(cb)
+	}
+	res, qerr := w.h.Query(ctxbg, q)
+	if qerr != nil {
+		return "err"
+	}
+	var sb strings.Builder
+	sb.WriteString("ok ")
+	if len(res.Blobs) == 0 {
+		sb.WriteString("-")
+	}
+	for i, b := range res.Blobs {
+		if i > 0 {
+			sb.WriteByte(',')
+		}
+		if p, ok := w.pos[b.Blob]; ok {
+			sb.WriteString(strconv.Itoa(p))
+		} else {
+			sb.WriteByte('?')
+		}
+	}
+	sb.WriteByte(' ')
+	sb.WriteString(hk.Hex([]byte(res.Continue)))
+	return sb.String()
+}
+
+// NewExec returns a fresh interpreter of the c09 line protocol on the real code.
+func NewExec() func(w []string) string {
+	var wd *world
+	return func(words []string) string {
+		return hk.Guard(func() string {
+			if len(words) == 0 {
+				return "bad-op"
+			}
+			switch words[0] {
+			case "pn", "q", "ar":
+			default:
+				return "bad-op"
+			}
+			if wd == nil {
+				wd = newWorld()
+			}
+			if words[0] == "pn" {
+				return wd.addPN(words)
+			}
+			return wd.query(words)
+		})
+	}
+}
